@@ -85,4 +85,17 @@ PROPS = {
         ],
         "assumptions": ["the text of a number contains no CR/LF (Rust Display)"],
     },
+    "C06": {
+        "coq_targets": ["theories/Val/VariantProofs.vo"],
+        "harness": ["c06"],
+        "axioms": [],
+        "trusted_base": COMMON_TB + [
+            "Coq.Floats.SpecFloat (binary_normalize, SFadd, SFsub, SFmul) as the definition of IEEE-754 binary32/binary64 arithmetic with round-to-nearest-even; Rust f32/f64 arithmetic, `as` conversions and round() are identified with it through IEEE bit patterns (correspondence)",
+            "modelled, not verified: rusty_linter/src/core/qb_casting.rs (QBNumberCast, CastVariant::cast), Variant::plus/minus/multiply/negate of rusty_variant/src/variant.rs, the rule 'Cast is emitted iff the static types differ' of the instruction generator (assignment, by-value parameters, FOR bounds and step)",
+            "NOT proved: finiteness of whole number -> SINGLE/DOUBLE conversions (validated by correspondence); division, MOD, comparisons, AND/OR are outside the theorems",
+        ],
+        "assumptions": [
+            "values reaching a store have their static type - false for expressions containing '/' (known finding C06-division-retag)",
+        ],
+    },
 }
